@@ -70,3 +70,24 @@ Definition reload_catches (f : fn_def) : bool :=
 
 Lemma reload_panic_is_a_failed_reload : reload_catches DepsGraph_reload = true.
 Proof. vm_compute. reflexivity. Qed.
+
+(* installing a reloaded value: `write` insists (assert!, not debug_assert!) that old and new value
+   have the same TypeId before anything is touched, and swap_any exchanges the WHOLE value (all
+   size_of_val(a) bytes) of the two same-typed slots; the old value leaves in the entry that is
+   dropped afterwards.  A static entry is never written (wrong_handle_type). *)
+Definition write_guards_type (f : fn_def) : bool :=
+  match fn_body f with
+  | ESemi (EMacro "assert" [EBinary "==" (EField (EPath ["self"]) "type_id") (EField (EField (EPath ["value"]) "0") "type_id")]) :: rest =>
+    match last rest (EOther "") with ESemi (ECall (EPath ["wrong_handle_type"]) []) => true | _ => false end
+  | _ => false
+  end.
+Definition swap_any_wf (f : fn_def) : bool :=
+  match rev (fn_body f) with
+  | EBlock [ESemi (ECall (EPath ["std"; "ptr"; "swap_nonoverlapping"])
+                     [ECast (ECast (EPath ["a"]) _) "* mut u8"; ECast (ECast (EPath ["b"]) _) "* mut u8"; EPath ["len"]])] ::
+    ELetS (PIdent "len" None) (Some (ECall (EPath ["std"; "mem"; "size_of_val"]) [EPath ["a"]])) None :: _ => true
+  | _ => false
+  end.
+Lemma reload_swaps_whole_same_typed_values :
+  write_guards_type UntypedEntry_write = true /\ swap_any_wf swap_any = true.
+Proof. vm_compute. split; reflexivity. Qed.
